@@ -293,6 +293,15 @@ def keys(ctx, rep, rule):
                     rep.check(rule, fn + "|every Ok installs " + fld, not goals_ or cfg.must_pass(body, [0], goals_, cut), "no successful return without the new key",
                               "set_keys can return Ok without replacing self.%s (an early return keeps the previous key: later messages are signed or "
                               "encrypted with a stale key)" % fld, body.loc(), obligation=True)
+            # the session keeps its previous keys when set_keys fails: nothing fallible follows the two stores
+            errs_ = {x.idx for x in body.calls() if (callee_path(x.term) or "").endswith("from_residual")} | \
+                set(flow.blocks_assigning_return(body, lambda rv: rv["k"] == "agg" and rv.get("vname") == "Err"))
+            for fld in ("auth_key", "priv_key"):
+                for (bi, kind, st, line) in flow.field_writes(body, V3, fld):
+                    after = cells.variant_reach(body, starts=body.blocks[bi].succs()) if kind in ("assign", "borrow_mut") else set()
+                    rep.check(rule, "%s|%s store is final" % (fn, fld), not (after & errs_), "no error exit after the key is replaced",
+                              "self.%s is %s before the last fallible step of set_keys: when that step fails the session is left with a half-built "
+                              "(default, all-zero) key" % (fld, "borrowed mutably" if kind == "borrow_mut" else "overwritten"), body.loc(line), obligation=True)
             ws = [(bi, kind, st, line) for (bi, kind, st, line) in flow.field_writes(body, V3, "user_name") if kind == "assign"]
             rep.check(rule, fn + "|installs user_name", bool(ws) and all(prov.rvalue(w[2]["rv"]) == p_user for w in ws), "self.user_name = user_name",
                       "user name is not replaced", body.loc(), obligation=True)
